@@ -37,6 +37,14 @@ structure Params where
   macSize : Nat
   deriving Repr
 
+/-- The literal in `if pkt > 1000` of `maxPayloadSizeForWrite` as it is in the tree.  It is NOT read
+from a text-matching fact (the extractor used to look for a comparison whose left operand is spelled
+`pkt`): `Gotlcp.Tie.RecordSize.Tlcp` proves, for all inputs, that the function TRANSLATED from
+tlcp/conn.go on every run computes exactly `maxPayload` instantiated with this value (and with the
+named constants, which the extractor evaluates with go/types), so a semantic change of the guard
+breaks that proof while a renaming or an equivalent re-arrangement of the function does not. -/
+def treePktGuard : Nat := 1000
+
 structure TxState where
   bytesSent : Nat
   packetsSent : Nat
